@@ -73,6 +73,7 @@ type Client struct {
 	responseBodyTransformer func(rawBody []byte, req *Request, resp *Response) (transformedBody []byte, err error)
 	resultStateCheckFunc    func(resp *Response) ResultState
 	onError                 ErrorHook
+	tlsFingerprint          *utls.ClientHelloID
 }
 
 type ErrorHook func(client *Client, req *Request, resp *Response, err error)
@@ -1240,6 +1241,7 @@ func (c *Client) SetTLSFingerprint(clientHelloID utls.ClientHelloID) *Client {
 		return
 	}
 	c.Transport.SetTLSHandshake(fn)
+	c.tlsFingerprint = &clientHelloID // fn reads c's TLS config: Clone re-creates it for the copy
 	return c
 }
 
@@ -1248,6 +1250,7 @@ func (c *Client) SetTLSFingerprint(clientHelloID utls.ClientHelloID) *Client {
 // used to customize the tls fingerprint.
 func (c *Client) SetTLSHandshake(fn func(ctx context.Context, addr string, plainConn net.Conn) (conn net.Conn, tlsState *tls.ConnectionState, err error)) *Client {
 	c.Transport.SetTLSHandshake(fn)
+	c.tlsFingerprint = nil
 	return c
 }
 
@@ -1492,6 +1495,11 @@ func (c *Client) Clone() *Client {
 	// clone Transport
 	cc.Transport = c.Transport.Clone()
 	cc.initTransport()
+	if cc.tlsFingerprint != nil {
+		// the fingerprint handshake reads the TLS config of the client it was
+		// created for: create it again for the copy
+		cc.SetTLSFingerprint(*cc.tlsFingerprint)
+	}
 
 	// clone http.Client
 	client := *c.httpClient
